@@ -46,12 +46,22 @@ impl RawValue {
         }
     }
 
+    /// Panics if the raw value isn't JSON, i.e. it is intended for values created by `from_value`;
+    /// use `try_get_value` for values that came from data.
     pub fn get_value(&self) -> JValue {
+        self.try_get_value().expect("raw value should be a valid JSON")
+    }
+
+    pub fn try_get_value(&self) -> Result<JValue, serde_json::Error> {
         let mut parsed_guard = self.parsed.borrow_mut();
 
-        let parsed_value = parsed_guard
-            .get_or_insert_with(|| serde_json::from_str(&self.raw).expect("TODO handle error"));
-        parsed_value.clone()
+        if let Some(parsed_value) = parsed_guard.as_ref() {
+            return Ok(parsed_value.clone());
+        }
+
+        let parsed_value: JValue = serde_json::from_str(&self.raw)?;
+        *parsed_guard = Some(parsed_value.clone());
+        Ok(parsed_value)
     }
 
     pub(crate) fn as_inner(&self) -> &str {
@@ -67,7 +77,11 @@ impl From<JValue> for RawValue {
 
 impl PartialEq for RawValue {
     fn eq(&self, other: &Self) -> bool {
-        self.get_value() == other.get_value()
+        match (self.try_get_value(), other.try_get_value()) {
+            (Ok(value), Ok(other_value)) => value == other_value,
+            // malformed values can be compared only as texts
+            _ => self.raw == other.raw,
+        }
     }
 }
 
